@@ -9,6 +9,10 @@ import (
 	"fmt"
 	"os"
 	"path/filepath"
+	"regexp"
+	"sort"
+	"strconv"
+	"strings"
 	"time"
 
 	"github.com/iDigitalFlame/xmt/c2/cfg"
@@ -35,7 +39,38 @@ func do(c []byte, class, note string) *cfgx.Result { return doX(c, "", class, no
 
 // doX: cexpr (optional) is a Coq expression denoting c (big configs are named once per shard
 // and their truncations / single-byte changes are written take k base / upd base k v).
+var seenInput = map[string]bool{}
+
+// doNew runs an input only if this exact byte string has not been run before (the boundary
+// substitutions overlap with the other generators).
+func doNew(c []byte, cexpr, class, note string) {
+	if seenInput[string(c)] {
+		return
+	}
+	if !sampleAll {
+		// quick tier: the Go-side oracle (cheap) sees every input; the Coq model (what costs) a
+		// deterministic 1/12 sample of them
+		h := uint32(2166136261)
+		for _, b := range c {
+			h = (h ^ uint32(b)) * 16777619
+		}
+		if h%12 != 0 {
+			seenInput[string(c)] = true
+			r := cfgx.Run(c)
+			desc := r.Desc(note)
+			r.Oracle(cfgx.TagName(c), func(what, key string) { out.Fail(what, key, desc) })
+			out.Count(class+"-oracle-only", string(c), len(c) >= 2)
+			return
+		}
+	}
+	doX(c, cexpr, class, note)
+}
+
+// sampleAll: every boundary input also becomes a Coq case (thorough tier)
+var sampleAll bool
+
 func doX(c []byte, cexpr, class, note string) *cfgx.Result {
+	seenInput[string(c)] = true
 	r := cfgx.Run(c)
 	desc := r.Desc(note)
 	out.Add(r.CoqTerm(cexpr), class, len(c) >= 2, desc)
@@ -196,6 +231,98 @@ func lengthFields(c []byte) []int {
 	return f
 }
 
+// boundaryValues derives, from the text of coq/Model/Cfg.v (sections Config.next .. MarshalJSON skeleton), every
+// integer literal that the model compares something with (<?, <=?, =?), adds +-1 around each and the
+// generic byte boundaries, and keeps what fits in a byte.  The list follows future edits of the model.
+func boundaryValues(root string) ([]byte, string) {
+	set := map[int]bool{}
+	for _, v := range []int{0, 1, 2, 127, 128, 254, 255} {
+		set[v] = true
+	}
+	src := "generic byte boundaries only (model file not readable)"
+	if raw, err := os.ReadFile(filepath.Join(root, "coq", "Model", "Cfg.v")); err == nil {
+		t := string(raw)
+		a, b := strings.Index(t, "(* ---- Config.next"), strings.Index(t, "(* ---- observables")
+		if a >= 0 && b > a {
+			t = t[a:b]
+			n := 0
+			for _, re := range []*regexp.Regexp{
+				regexp.MustCompile(`(-?\d+)\s*(?:<\?|<=\?|=\?)`),
+				regexp.MustCompile(`(?:<\?|<=\?|=\?)\s*(-?\d+)\b`),
+			} {
+				for _, m := range re.FindAllStringSubmatch(t, -1) {
+					if v, err := strconv.Atoi(m[1]); err == nil {
+						for d := -1; d <= 1; d++ {
+							set[v+d] = true
+						}
+						n++
+					}
+				}
+			}
+			src = fmt.Sprintf("%d comparison literals of coq/Model/Cfg.v (+-1) and the generic byte boundaries", n)
+		}
+	}
+	var o []byte
+	for v := range set {
+		if v >= 0 && v <= 255 {
+			o = append(o, byte(v))
+		}
+	}
+	sort.Slice(o, func(i, j int) bool { return o[i] < o[j] })
+	return o, src
+}
+
+// fixed-width settings: tag and number of argument bytes
+var fixedWidth = []struct {
+	tag byte
+	w   int
+}{{0xA1, 8}, {0xA2, 1}, {0xA3, 1}, {0xA4, 8}, {0xA5, 5}, {0xA6, 4}, {0xA8, 1}, {0xA9, 1}, {0xB0, 1}, {0xB2, 1}, {0xD5, 5}, {0xE2, 1}}
+
+// fixedBoundary: short strings (tag alphabet) x (boundary values) for the fixed-width settings: every
+// single argument byte over every boundary value (other bytes from three baselines), every PAIR of
+// argument bytes over the boundary values for the settings that compare more than one byte (work hours),
+// each alone, after a connector and before another setting; selectors next to them.
+func fixedBoundary(bv []byte, thorough bool) {
+	wrapIt := func(core []byte, class string) {
+		doNew(core, "", class, "")
+		doNew(cat([]byte{0xC0}, core), "", class, "")
+		doNew(cat([]byte{0xAB}, core, []byte{0xA2, 10}), "", class, "")
+	}
+	for _, f := range fixedWidth {
+		bases := [][]byte{make([]byte, f.w), pat(f.w, 0xFF, 0), pat(f.w, 9, 7)}
+		if f.tag == 0xA5 {
+			bases = [][]byte{{0x3E, 9, 30, 17, 45}, {0, 0, 0, 0, 0}, {0xFF, 23, 59, 23, 59}}
+		}
+		for _, base := range bases {
+			for k := 0; k < f.w; k++ {
+				for _, v := range bv {
+					m := cat([]byte{f.tag}, base)
+					m[1+k] = v
+					wrapIt(m, "fixed-boundary")
+				}
+			}
+		}
+		if f.tag == 0xA5 || thorough {
+			small := []byte{0, 1, 23, 24, 59, 60, 61, 255}
+			if thorough {
+				small = bv
+			}
+			base := bases[0]
+			for k := 0; k < f.w; k++ {
+				for l := k + 1; l < f.w; l++ {
+					for _, v := range small {
+						for _, u := range small {
+							m := cat([]byte{f.tag}, base)
+							m[1+k], m[1+l] = v, u
+							doNew(m, "", "fixed-boundary-pair", "")
+						}
+					}
+				}
+			}
+		}
+	}
+}
+
 func main() {
 	fl := vh.ParseFlags()
 	out = vh.NewOut("C09", fl, "From XMT Require Import Base.Prelude Model.Cfg.", "case", "check",
@@ -205,6 +332,7 @@ func main() {
 	out.ShardSize = 400
 	rng := vh.NewRand(fl.Seed)
 	thorough := fl.Tier == "thorough"
+	sampleAll = thorough
 	tls, err := cfgx.LoadTLS(filepath.Join(filepath.Dir(fl.Out), "cfg_tls"))
 	if err != nil {
 		panic(err)
@@ -269,6 +397,28 @@ func main() {
 			}
 		}
 	}
+	// 2b. boundary values of every comparison constant of the model, substituted at EVERY byte position of
+	// the valid configs (big configs: the first 80 and last 24 positions in quick), and the fixed-width settings
+	bv, bsrc := boundaryValues(filepath.Dir(filepath.Dir(fl.Out)))
+	out.Extra("boundary_values", cfgx.Ints(bv))
+	out.Extra("boundary_source", bsrc)
+	for vk, v := range vs {
+		c := v.c
+		for o := 0; o < len(c); o++ {
+			if len(c) > 100 && !thorough && o >= 80 && o < len(c)-24 {
+				continue
+			}
+			for _, b := range bv {
+				if b == c[o] {
+					continue
+				}
+				m := append([]byte(nil), c...)
+				m[o] = b
+				doNew(m, expr(vk, "(upd %s %d %d)", names[vk], o, b), "boundary-substitution", fmt.Sprintf("%s@%d=%d", v.name, o, b))
+			}
+		}
+	}
+	fixedBoundary(bv, thorough)
 	// 3. exhaustive short strings
 	alpha := append(append([]byte{}, tags...), 0, 1, 2, 5, 255)
 	for _, a := range alpha {
